@@ -432,7 +432,7 @@ pub fn test_process_crash(d: &Driver, case: &Case, b: usize, image: &Image, cont
                     out.failures.push(fail("C02", "second-crash-state", b, format!("{where_}, then a second crash at recovery effect {ridx} (byte {rbyte:?}): recovered state is not an allowed one: {diff}")));
                     return out;
                 }
-                return finish(d, case, b, w2, obs2, m2, cont, stats, out, &where_);
+                return finish(d, case, b, w2, obs2, m2, cont, stats, out, &where_, &image2);
             }
             Err((e, _)) => {
                 out.failures.push(fail("C02", "second-crash-open-failed", b, format!("{where_}, then a second crash at recovery effect {ridx} (byte {rbyte:?}): {}", open_fail_text(&e))));
@@ -441,16 +441,20 @@ pub fn test_process_crash(d: &Driver, case: &Case, b: usize, image: &Image, cont
         }
     }
     let m = match_allowed(d, b, &obs);
-    finish(d, case, b, w, obs, m, cont, stats, out, &where_)
+    finish(d, case, b, w, obs, m, cont, stats, out, &where_, image)
 }
 
 #[allow(clippy::too_many_arguments)]
-fn finish(d: &Driver, case: &Case, b: usize, w: World, obs: Obs, m: Matched, cont: Cont, stats: &mut CrashStats, mut out: CrashOutcome, where_: &str) -> CrashOutcome {
+fn finish(d: &Driver, case: &Case, b: usize, w: World, obs: Obs, m: Matched, cont: Cont, stats: &mut CrashStats, mut out: CrashOutcome, where_: &str, image: &Image) -> CrashOutcome {
     let n = d.steps.len();
     out.matched = Some(m.clone());
     // C12 is judged on whatever state was recovered
     if let Some(msg) = batch_atomicity(d, b, &obs) {
         out.failures.push(fail("C12", "batch-torn-by-crash", b, format!("{where_}: {msg}")));
+    }
+    // C06 after recovery: nothing older than the oldest retained record's file and the file recovery resumes in
+    if let Some(msg) = c06_after_recovery(&w, &obs, image) {
+        out.failures.push(fail("C06", "file-not-reclaimed-after-crash", b, format!("{where_}: {msg}")));
     }
     // C04: recovered next positions may not fall below what was handed out before the crash
     let mut hw = high_water(d, b);
@@ -876,4 +880,48 @@ pub fn evaluate_crash(prop: &str, case: &Case, fault: &Fault) -> Vec<Failure> {
     }
     let _ = mix(&[0]);
     out.into_iter().filter(|f| f.prop == prop).collect()
+}
+
+// ------------------------------------------------------------------ C06 on the log returned by a crash recovery
+
+/// Upper bound of C06 evaluated on a recovered log: no WAL file older than both the file recovery
+/// attributes the oldest retained record to and the file in which recovery positioned the writer.
+/// Attribution follows the crate's documented-by-behaviour rule for replay (the file the reader sat in
+/// when it started looking for the entry = the file in which the previous complete entry ended), computed
+/// here by the independent parser over the crash image. This tolerates the one known quirk (an entry
+/// preceded by orphan continuation frames of a garbage-collected entry pins the file holding those
+/// frames) and nothing beyond it.
+pub fn c06_after_recovery(w: &World, obs: &Obs, image: &Image) -> Option<String> {
+    let fs = w.fs.borrow();
+    let listing: Vec<u64> = fs.st.wal_names().iter().filter_map(|n| crate::simfs::wal_number(n)).collect();
+    // the hand-off seeks (into_writer + forward) are the last seeks before recovery's first write, file creation or removal
+    let first_write = fs.trace.iter().position(|e| matches!(e.eff, Eff::Write { .. } | Eff::Create { .. } | Eff::Unlink { .. })).unwrap_or(fs.trace.len());
+    let resume = fs.trace[..first_write].iter().rev().find_map(|e| if let Eff::Seek { name, .. } = &e.eff { crate::simfs::wal_number(name) } else { None })?;
+    let p = crate::walparse::parse(image);
+    let file_no = |fi: usize| -> Option<u64> { p.files.get(fi).and_then(|n| crate::simfs::wal_number(n)) };
+    // replay attribution of every record of every complete Append entry
+    let mut attr: BTreeMap<(String, u64, u64), u64> = BTreeMap::new();
+    let mut reader_file = file_no(0)?;
+    for e in &p.entries {
+        if let crate::walparse::EntryKind::Append { queue, recs, .. } = &e.kind {
+            for r in recs {
+                let slot = attr.entry((queue.clone(), r.pos, r.hash)).or_insert(reader_file);
+                *slot = (*slot).min(reader_file);
+            }
+        }
+        reader_file = file_no(p.frames[e.last_frame].file)?;
+    }
+    let mut oldest: Option<u64> = None;
+    for (name, q) in &obs.queues {
+        for r in &q.recs {
+            let f = *attr.get(&(name.clone(), r.pos, r.hash))?; // not found by the parser: no verdict
+            oldest = Some(oldest.map(|o| o.min(f)).unwrap_or(f));
+        }
+    }
+    let bound = oldest.map(|o| o.min(resume)).unwrap_or(resume);
+    let first = *listing.first()?;
+    if first < bound {
+        return Some(format!("after recovery the directory still holds WAL file {first} although recovery attributes the oldest retained record to file {:?} and resumed writing in file {resume}; listing {:?}", oldest, listing));
+    }
+    None
 }
